@@ -92,6 +92,7 @@ fn dispatch(id: &str, ra: RunArgs) -> i32 {
         "C37" => run_check(checks::c37::C37, ra),
         "C36" => run_check(checks::c36::C36, ra),
         "C13" => run_check(checks::c13::C13, ra),
+        "C33" => run_check(checks::simchecks::c33(), ra),
         "C16" => run_check(checks::c16::C16, ra),
         "C17" => run_check(checks::c17::C17, ra),
         "C01" => run_check(checks::simchecks::c01(), ra),
